@@ -377,6 +377,9 @@ fn build(tier: Tier) -> Vec<Scenario> {
             out.push(scenario(Conn::Shuffle, l.clone(), if l.total_cores() <= 2 { 3 } else { 2 }, 3, 0));
         }
     }
+    if tier == Tier::Quick {
+        crate::props::common::deepen(&mut out, &|n| n.contains("/local2/") || n.contains("/local3/"));
+    }
     out
 }
 
